@@ -763,6 +763,9 @@ impl Property for C16 {
     fn shrink_budget(&self) -> (u32, u32) {
         (12, 60)
     }
+    fn fail_fast(&self) -> bool {
+        true
+    }
     fn in_domain(&self, case: &Case) -> bool {
         let mut t = case.types.clone();
         normalise(&mut t);
